@@ -345,6 +345,194 @@ def suite_real_mp(ctx):
             ctx.fail("_spatial_mp", f"multi-process run raised {type(e).__name__}: {e}", inp, size=n)
 
 
+def _flag_definitions(rng):
+    """Projection definitions in keyword form (a PROJ dictionary, as AreaDefinition.proj_dict = crs.to_dict() hands to Proj_MP) that
+    carry VALUE-LESS parameters: in such a dictionary `key: None` is how a PROJ flag is written (+south, +no_uoff, +czech, +guam,
+    +R_A, +approx, ... and the inert +no_defs).  Yields (family, definition, (lon, lat) of a place inside the projection's domain, half-width in degrees)."""
+    import pyproj
+    zone = rng.randrange(2, 60)
+    lon_z = -183.0 + 6.0 * zone
+    ell = rng.choice(["WGS84", "GRS80", "intl", "clrk66"])
+    with warnings.catch_warnings():
+        warnings.simplefilter("ignore")
+        epsg_dict = pyproj.CRS.from_user_input("EPSG:327%02d" % zone).to_dict()       # {'proj': 'utm', 'zone': .., 'south': None, 'datum': 'WGS84', 'units': 'm', 'no_defs': None, 'type': 'crs'}
+    yield "utm-south-epsg", epsg_dict, (lon_z + rng.uniform(-2.5, 2.5), rng.uniform(-70.0, -2.0)), 2.0
+    zone2 = rng.randrange(2, 60)
+    yield "utm-south", {"proj": "utm", "zone": zone2, "south": None, "ellps": ell}, (-183.0 + 6.0 * zone2 + rng.uniform(-2.5, 2.5), rng.uniform(-70.0, -2.0)), 2.0
+    yield "utm-north", {"proj": "utm", "zone": zone2, "ellps": ell, "no_defs": None}, (-183.0 + 6.0 * zone2 + rng.uniform(-2.5, 2.5), rng.uniform(2.0, 70.0)), 2.0
+    yield "ups-south", {"proj": "ups", "south": None, "ellps": "WGS84"}, (rng.uniform(-170.0, 170.0), rng.uniform(-86.0, -72.0)), 3.0
+    lat_c, lon_c = rng.uniform(-50.0, 50.0), rng.uniform(-160.0, 160.0)
+    om = {"proj": "omerc", "lat_0": round(lat_c, 3), "lonc": round(lon_c, 3), "alpha": round(rng.uniform(15.0, 75.0), 4), "k_0": rng.choice([1.0, 0.9996, 0.99984]),
+          "x_0": rng.choice([0.0, 590476.87]), "y_0": rng.choice([0.0, 442857.65]), "ellps": ell}
+    yield "omerc-no_uoff", dict(om, **{rng.choice(["no_uoff", "no_off"]): None}), (lon_c + rng.uniform(-1, 1), lat_c + rng.uniform(-1, 1)), 2.0
+    yield "omerc-no_rot", dict(om, no_rot=None), (lon_c + rng.uniform(-1, 1), lat_c + rng.uniform(-1, 1)), 2.0
+    yield "omerc-plain", dict(om, no_defs=None), (lon_c + rng.uniform(-1, 1), lat_c + rng.uniform(-1, 1)), 2.0
+    lat_g, lon_g = rng.uniform(-40.0, 40.0), rng.uniform(-160.0, 160.0)
+    yield "aeqd-guam", {"proj": "aeqd", "guam": None, "lat_0": round(lat_g, 2), "lon_0": round(lon_g, 2), "x_0": 50000.0, "y_0": 50000.0, "ellps": "clrk66"}, (lon_g, lat_g), 1.0
+    lat_a, lon_a = rng.choice([-1, 1]) * rng.uniform(15.0, 60.0), rng.uniform(-150.0, 150.0)
+    sph = rng.choice(["R_A", "R_V", "R_g", "R_h"])
+    pr = rng.choice([{"proj": "laea", "lat_0": round(lat_a, 1), "lon_0": round(lon_a, 1)}, {"proj": "eqearth", "lon_0": round(lon_a, 1)},
+                     {"proj": "aea", "lat_1": round(lat_a - 10, 1), "lat_2": round(lat_a + 10, 1), "lat_0": round(lat_a, 1), "lon_0": round(lon_a, 1)}])
+    yield "sphere-of-ellipsoid-" + sph, dict(pr, ellps=ell, **{sph: None}), (lon_a, lat_a), 4.0
+    lon_t = rng.uniform(-150.0, 150.0)
+    yield "tmerc-approx", {"proj": "tmerc", "lon_0": round(lon_t, 1), "lat_0": 0.0, "k_0": 0.9996, "ellps": ell, "approx": None}, (lon_t + rng.choice([-1, 1]) * rng.uniform(8.0, 14.0), rng.uniform(-60.0, 60.0)), 3.0
+    yield "krovak-czech", {"proj": "krovak", "lat_0": 49.5, "lon_0": 24.8333333333333, "alpha": 30.2881397527778, "k": 0.9999, "czech": None, "ellps": "bessel"}, (rng.uniform(13.0, 22.0), rng.uniform(48.0, 50.5)), 1.5
+    yield "stere-south-plain", {"proj": "stere", "lat_0": -90.0, "lat_ts": -71.0, "lon_0": float(rng.randrange(-170, 170, 10)), "ellps": "WGS84", "no_defs": None}, (rng.uniform(-170, 170), rng.uniform(-85.0, -62.0)), 3.0
+
+
+def _same_coords(a, b, atol):
+    a, b = np.asarray(a, float), np.asarray(b, float)
+    if a.shape != b.shape or not np.array_equal(np.isfinite(a), np.isfinite(b)):
+        return False, float("inf")
+    fin = np.isfinite(a)
+    d = float(np.abs(a[fin] - b[fin]).max()) if fin.any() else 0.0
+    return d <= atol, d
+
+
+def suite_real_proj_definitions(ctx):
+    """The projection DEFINITION must reach the worker processes as it was given: Proj_MP(**definition), forward and inverse, under any
+    (nprocs, schedule, chunk), against its single-process counterpart pyproj.Proj(**definition) on the same points - for definitions
+    whose PROJ dictionary carries value-less flags.  Then the library paths that call Proj_MP this way (keyword form of
+    AreaDefinition.proj_dict): grid.get_linesample and image.ImageContainerQuick.resample with nprocs=2 against nprocs=1, and
+    get_linesample against first principles (the lon/lat of the centre of pixel (r, c), computed by pyproj alone, has line r, sample c)."""
+    import pyproj
+    from pyresample import geometry, grid, image
+    from pyresample._spatial_mp import Proj_MP
+    r = ctx.rng
+    defs = list(_flag_definitions(r))
+    if not ctx.quick:
+        for _ in range(3):
+            defs += list(_flag_definitions(r))
+    n_lib = 0
+    for fam, definition, (lon_c, lat_c), half in defs:
+        flags = sorted(k for k, v in definition.items() if v is None and k != "no_defs")
+        with warnings.catch_warnings():
+            warnings.simplefilter("ignore")
+            as_area_gives = pyproj.CRS.from_user_input(definition).to_dict()
+        # only what a CRS can carry (and so an AreaDefinition can hand over): every flag survives crs.to_dict() (possibly under its alias)
+        if len([k for k, v in as_area_gives.items() if v is None and k != "no_defs"]) != len(flags):
+            ctx.count("real.proj_def.flag_not_representable_in_a_crs")
+            continue
+        n = r.choice([37, 200, 1001])
+        lons = np.array([lon_c + r.uniform(-half, half) / max(0.15, np.cos(np.radians(lat_c))) * (0.3 if abs(lat_c) > 70 else 1.0) for _ in range(n)])
+        lats = np.clip(np.array([lat_c + r.uniform(-half, half) for _ in range(n)]), -89.5, 89.5)
+        sp = pyproj.Proj(**definition)
+        with warnings.catch_warnings():
+            warnings.simplefilter("ignore")
+            x_sp, y_sp = sp(lons, lats)
+            lo_sp, la_sp = sp(x_sp, y_sp, inverse=True)
+            # what the flags are worth at these points (single process, pyproj only)
+            plain = pyproj.Proj(**{k: v for k, v in definition.items() if v is not None})
+            x_pl, y_pl = plain(lons, lats)
+        flag_effect = float(np.nanmax(np.abs(np.asarray(x_sp) - x_pl) + np.abs(np.asarray(y_sp) - y_pl))) if flags else 0.0
+        failed_here = False
+        forms = [("as-given", definition)] + ([("crs.to_dict()", as_area_gives)] if as_area_gives != definition else [])
+        for form, dd in forms:
+            for _ in range(1 if ctx.quick else 3):
+                cfg = {"nprocs": r.choice([2, 2, 3, 4]), "schedule": r.choice(KINDS), "chunk": r.choice([None, 1, 5, 64])}
+                for direction in ("forward", "inverse"):
+                    inp = {"definition": {k: v for k, v in dd.items()}, "form": form, "flags": flags, "direction": direction, "n": n, **cfg,
+                           "first_point": [float(lons[0]), float(lats[0])] if direction == "forward" else [float(x_sp[0]), float(y_sp[0])]}
+                    ctx.case("real.proj_mp.definition", (fam, form, direction, n, cfg["nprocs"], cfg["schedule"], cfg["chunk"], float(lons[0])),
+                             nontrivial=bool(flags) and flag_effect > 1e-3, sample={"input": inp, "flag_effect_m": flag_effect})
+                    ctx.count("real.proj_def." + fam)
+                    try:
+                        with warnings.catch_warnings():
+                            warnings.simplefilter("ignore")
+                            if direction == "forward":
+                                a, b = Proj_MP(**dd)(lons, lats, **cfg)
+                                ra, rb, atol, unit = x_sp, y_sp, 1e-6, "projection units"
+                            else:
+                                a, b = Proj_MP(**dd)(np.asarray(x_sp), np.asarray(y_sp), inverse=True, **cfg)
+                                ra, rb, atol, unit = lo_sp, la_sp, 1e-9, "degrees"
+                    except Exception as e:  # noqa
+                        ctx.fail("Proj_MP.__call__", f"multi-process run raised {type(e).__name__}: {str(e)[:150]}", inp, tags={"cause": "raises", "family": fam}, size=n)
+                        failed_here = True
+                        continue
+                    ok1, d1 = _same_coords(a, ra, atol)
+                    ok2, d2 = _same_coords(b, rb, atol)
+                    if not (ok1 and ok2):
+                        failed_here = True
+                        ctx.fail("Proj_MP.__call__", f"{direction} projection with the definition in keyword form ({form}; value-less flags {flags or 'none but no_defs'}) differs from "
+                                 f"pyproj.Proj(**definition) in a single process by up to {max(d1, d2):.6g} {unit}", inp,
+                                 {"multi_process_first": [float(np.ravel(a)[0]), float(np.ravel(b)[0])], "single_process_first": [float(np.ravel(ra)[0]), float(np.ravel(rb)[0])],
+                                  "max_abs_difference": max(d1, d2), "effect_of_the_flags_on_these_points": flag_effect},
+                                 tags={"cause": "projection-definition", "family": fam, "direction": direction}, size=n)
+        # ---- the library paths that hand AreaDefinition.proj_dict to Proj_MP in keyword form
+        if failed_here:
+            ctx.count("real.proj_def.library_paths_skipped_same_cause_already_reported")
+            continue
+        if ctx.quick and n_lib >= 5 and fam not in ("utm-south", "utm-south-epsg"):
+            continue
+        n_lib += 1
+        w, h = r.randrange(20, 48), r.randrange(16, 40)
+        px, py = r.choice([2000.0, 4000.0, 7500.0]), r.choice([2000.0, 5000.0])
+        with warnings.catch_warnings():
+            warnings.simplefilter("ignore")
+            xc, yc = (float(v) for v in sp(lon_c, lat_c))
+        ext = (xc - w * px / 2, yc - h * py / 2, xc + w * px / 2, yc + h * py / 2)
+        with warnings.catch_warnings():
+            warnings.simplefilter("ignore")
+            area = geometry.AreaDefinition("src", "src", "src", dict(definition), w, h, ext)
+            # pixel centres by hand, their lon/lat by pyproj alone
+            cx = ext[0] + (np.arange(w) + 0.5) * px
+            cy = ext[3] - (np.arange(h) + 0.5) * py
+            CX, CY = np.meshgrid(cx, cy)
+            plon, plat = sp(CX, CY, inverse=True)
+            bx, by = sp(plon, plat)
+        rr, cc = np.meshgrid(np.arange(h), np.arange(w), indexing="ij")
+        well_inside = np.isfinite(bx) & (np.abs(bx - CX) < 0.25 * px) & (np.abs(by - CY) < 0.25 * py)      # the projection's own inverse is good enough here
+        with warnings.catch_warnings():
+            warnings.simplefilter("ignore")
+            inp = {"definition": dict(definition), "flags": flags, "proj_dict_of_the_area": {k: v for k, v in area.proj_dict.items()}, "shape": [h, w], "extent": list(ext)}
+        out = {}
+        try:
+            with warnings.catch_warnings():
+                warnings.simplefilter("ignore")
+                for nprocs in (1, 2):
+                    out[nprocs] = grid.get_linesample(plon, plat, area, nprocs=nprocs)
+        except Exception as e:  # noqa
+            ctx.fail("grid.get_linesample", f"raised {type(e).__name__}: {str(e)[:150]}", inp, tags={"cause": "raises", "family": fam}, size=w * h)
+            continue
+        ctx.case("real.get_linesample.definition", (fam, w, h, px, py, xc, yc), nontrivial=bool(flags) and flag_effect > 1e-3, sample={"input": inp})
+        for nprocs in (1, 2):
+            rows, cols = out[nprocs]
+            bad = well_inside & ((rows != rr) | (cols != cc))
+            if bad.any():
+                i, j = (int(v[0]) for v in np.nonzero(bad))
+                ctx.fail("grid.get_linesample", f"nprocs={nprocs}: the lon/lat of the centre of pixel (r, c) does not get line r, sample c at {int(bad.sum())} of {int(well_inside.sum())} pixels "
+                         f"(value-less flags of the projection: {flags or 'none but no_defs'})", {**inp, "nprocs": nprocs},
+                         {"pixel": [i, j], "lonlat": [float(plon[i, j]), float(plat[i, j])], "got_line_sample": [int(rows[i, j]), int(cols[i, j])]},
+                         tags={"cause": "projection-definition", "family": fam, "nprocs": nprocs}, size=w * h)
+        if not (np.array_equal(out[1][0], out[2][0]) and np.array_equal(out[1][1], out[2][1])):
+            ctx.fail("grid.get_linesample", f"nprocs=2 differs from nprocs=1 at {int(((out[1][0] != out[2][0]) | (out[1][1] != out[2][1])).sum())} of {w * h} positions", inp,
+                     tags={"cause": "projection-definition", "family": fam, "nprocs": 2}, size=w * h)
+        # a lon/lat target over the same region, resampled from the area with 1 and with 2 processes
+        fin = np.isfinite(plon) & np.isfinite(plat)
+        if not fin.all() or float(plon.max() - plon.min()) > 90.0:
+            ctx.count("real.proj_def.no_lonlat_target")
+            continue
+        tw, th = r.randrange(12, 30), r.randrange(10, 24)
+        with warnings.catch_warnings():
+            warnings.simplefilter("ignore")
+            target = geometry.AreaDefinition("t", "t", "t", {"proj": "longlat", "ellps": "WGS84"}, tw, th,
+                                             (float(plon.min()), float(plat.min()), float(plon.max()), float(plat.max())))
+            data = np.arange(w * h, dtype=np.float64).reshape(h, w) + 1.0
+            res = {}
+            try:
+                for nprocs in (1, 2):
+                    res[nprocs] = np.asarray(image.ImageContainerQuick(data, area, nprocs=nprocs, segments=1, fill_value=-1).resample(target).image_data)
+            except Exception as e:  # noqa
+                ctx.fail("image.ImageContainerQuick.resample", f"raised {type(e).__name__}: {str(e)[:150]}", inp, tags={"cause": "raises", "family": fam}, size=w * h)
+                continue
+        ctx.case("real.image_quick.definition", (fam, w, h, tw, th, xc, yc), nontrivial=bool(flags) and flag_effect > 1e-3 and bool((res[1] != -1).any()))
+        if res[1].shape != res[2].shape or not np.array_equal(res[1], res[2]):
+            nd = int((res[1] != res[2]).sum()) if res[1].shape == res[2].shape else -1
+            ctx.fail("image.ImageContainerQuick.resample", f"nprocs=2 differs from nprocs=1 at {nd} of {tw * th} target pixels (value-less flags of the source projection: {flags or 'none but no_defs'})",
+                     {**inp, "target_shape": [th, tw], "target_extent": [float(v) for v in target.area_extent]}, {"n_valid_nprocs1": int((res[1] != -1).sum()), "n_valid_nprocs2": int((res[2] != -1).sum())},
+                     tags={"cause": "projection-definition", "family": fam, "nprocs": 2}, size=w * h)
+
+
 def _kd_points(rng, kind, n, dim):
     """source points: distinct / on a coarse lattice (many coincident points and exact distance ties) / with duplicated rows (overlapping scans)"""
     pts = np.array([[rng.uniform(-1, 1) for _ in range(dim)] for _ in range(n)]).reshape(n, dim)
@@ -426,6 +614,7 @@ def run(ctx):
     suite_controlled(ctx)
     suite_real_mp(ctx)
     suite_real_kdtree_params(ctx)
+    suite_real_proj_definitions(ctx)
 
 
 def search(ctx):
